@@ -331,7 +331,12 @@ fn all_pixels(w: u32, h: u32) -> Vec<(u32, u32)> {
 /// Dimensions far beyond anything that can be allocated: `from_bytes` must still compute the padded size without
 /// overflow and reject every buffer we can offer, naming the true expected size.
 fn extreme_dimensions(rep: &mut Report) {
-    let dims: [(u32, u32); 12] = [
+    let dims: [(u32, u32); 17] = [
+        (65_536, 128),            // exactly 1 MiB of pixel data: 65 536 chunks
+        (65_535, 128),
+        (1 << 20, 8),
+        (1 << 17, 64),
+        (4096, 2048),
         (u32::MAX, u32::MAX),
         (u32::MAX, 1),
         (1, u32::MAX),
@@ -387,14 +392,15 @@ pub fn run(ctx: &Ctx) -> Outcome {
     for t in refs::TYPES.iter() {
         sizes.push((t.w, t.h, false));
     }
-    for big in [(1u32, 255u32), (1020, 255), (4096, 64), (65532, 8)] {
+    // (the last three are pages of 1 MiB and just around it: 65 536 chunks of 16 bytes)
+    for big in [(1u32, 255u32), (1020, 255), (4096, 64), (65532, 8), (65_535, 128), (65_536, 128), (262_144, 33)] {
         sizes.push((big.0, big.1, true));
     }
     // more large sizes (sampled pixels): random dimensions whose pixel area stays below 4 MB
     let n_large_random = if ctx.quick() { 12 } else { 600 };
     {
         let mut rng = ctx.rng("large-sizes", 0);
-        while sizes.len() < box_n + 11 + 4 + n_large_random {
+        while sizes.len() < box_n + 11 + 7 + n_large_random {
             let hmax = if rng.bool() { 300 } else { 4000 };
             let h = 1 + rng.below(hmax) as u32;
             let wmax = if rng.bool() { 3000 } else { 70_000 };
@@ -404,7 +410,7 @@ pub fn run(ctx: &Ctx) -> Outcome {
             }
         }
     }
-    let n_large = 4 + n_large_random as u64;
+    let n_large = 7 + n_large_random as u64;
     let ns = sizes.len();
     let report = run_sharded(ctx, ns + 3, |shard, rep| {
         let mut rng = ctx.rng("size", shard as u64);
@@ -447,7 +453,7 @@ pub fn run(ctx: &Ctx) -> Outcome {
         floor("column byte counts 0..=5 all seen", report.set_len("column_bytes") >= 6, report.set_len("column_bytes")),
         floor("pixel placement also checked on borrowed pages with existing content", report.get("pixels_checked_on_borrowed_pages") > 10_000, report.get("pixels_checked_on_borrowed_pages")),
         floor("equality with from_bytes(as_bytes()) after set/clear/fill histories, incl. pages brought back to blank", report.get("equality_checked_on_pages_back_to_blank") > 1000, report.get("equality_checked_on_pages_back_to_blank")),
-        floor("from_bytes with dimensions up to u32::MAX", report.get("extreme_dimension_probes") == 72, report.get("extreme_dimension_probes")),
+        floor("from_bytes with dimensions up to u32::MAX", report.get("extreme_dimension_probes") == 102, report.get("extreme_dimension_probes")),
         floor("from_bytes both accepted and rejected", report.get("from_bytes_accepted") > 0 && report.get("from_bytes_rejected") > 0, report.get("from_bytes_rejected")),
     ];
     Outcome {
